@@ -424,7 +424,7 @@ func c17(x *mon.Ctx) {
 		}
 		return b
 	}
-	idxs := []int{-1, 0, 1, 2, 3, 4, 5, math.MinInt, math.MaxInt, math.MinInt32, 1 << 32, 1<<32 + 1}
+	idxs := []int{-1, 0, 1, 2, 3, 4, 5, math.MinInt, math.MaxInt, math.MinInt32, 1 << 32, 1<<32 + 1, 255, 256, 257, 259, 512, 65536, 65539, -256, -254, -65533, 1 << 31, 1<<40 + 2}
 	var singles []rtmrReq
 	for _, i := range idxs {
 		for _, n := range []int{0, 1, 47, 48, 49, 64, 96} {
